@@ -52,6 +52,54 @@ def loops_of(fnode):
     return out
 
 
+def _chain(n):
+    """'a.b.c' for a Name/Attribute chain, else None"""
+    parts = []
+    while isinstance(n, ast.Attribute):
+        parts.append(n.attr)
+        n = n.value
+    if isinstance(n, ast.Name):
+        parts.append(n.id)
+        return ".".join(reversed(parts))
+    return None
+
+
+def deep_paths_in(body_nodes):
+    """attribute chains of depth > 1 below a name (self.a.b, x.y.z ...) that the loop body assigns to, stores a
+    subscript of, or calls a mutating method on: state the loop changes that is neither a local nor a field of self"""
+    out = set()
+
+    class V(ast.NodeVisitor):
+        def visit_Lambda(self, n):
+            pass
+
+        def visit_Attribute(self, n):
+            if isinstance(n.ctx, ast.Store):
+                c = _chain(n)
+                if c and c.count(".") >= 2:
+                    out.add(c)
+            self.generic_visit(n)
+
+        def visit_Call(self, n):
+            f = n.func
+            if isinstance(f, ast.Attribute) and f.attr in MUTATORS:
+                c = _chain(f.value)
+                if c and c.count(".") >= 2:
+                    out.add(c)
+            self.generic_visit(n)
+
+        def visit_Subscript(self, n):
+            if isinstance(n.ctx, ast.Store):
+                c = _chain(n.value)
+                if c and c.count(".") >= 2:
+                    out.add(c)
+            self.generic_visit(n)
+
+    for b in body_nodes:
+        V().visit(b)
+    return out
+
+
 def assigned_in(body_nodes):
     """(local names, self fields, calls self methods?) assigned / mutated in the loop body."""
     names, fields, self_calls = set(), set(), set()
@@ -163,6 +211,8 @@ class LoopCtl:
             if spec is None:
                 return NotImplemented
             return invariant_while(I, self, node, env, k, spec)
+        if isinstance(node, ast.AsyncFor):
+            return async_for(I, self, node, env, k, spec)
         return NotImplemented
 
 
@@ -188,7 +238,7 @@ def per_iteration_for(I, ctl, node, env, it, k, spec):
     c = I.ctx
     qn = ctl.con.qualname
     items = list(I.iterate_concrete(it))
-    b0 = _inv_bindings(I, ctl, env, {})
+    b0 = _inv_bindings(I, ctl, env, {"_items": list(items)})
     for cid, lam in spec.at_entry:
         f = eval_clause(I, lam, _select(lam, {**b0, "fx": list(c.fx)}), old_view=ctl.old_view())
         c.check_obligation(f"{qn}::loop{k}.at_entry.{cid}", f)
@@ -242,6 +292,60 @@ def per_iteration_for(I, ctl, node, env, it, k, spec):
         _assume_invs(I, ctl, spec, env, {})
     c.fx.append(("loop.summary", k, len(items)))
     return None
+
+
+def async_for(I, ctl, node, env, k, spec):
+    """`async for x in <external async generator>`: cut at an invariant like any loop over a symbolic sequence.
+    The state at the head of an iteration is whatever any number of earlier iterations left (havoc of everything
+    the body changes + invariants); every `__anext__` is a suspension (await rule) whose outcomes are: an item of
+    the generator's declared element type, exhaustion (the loop ends), or one of its declared failures (propagates).
+    One iteration is verified from that state: per-iteration `each` clauses (old = state at the head) and the
+    invariants at the back edge."""
+    from .values import ExtClass
+
+    c = I.ctx
+    qn = ctl.con.qualname
+    it = I.eval(node.iter, env)
+    if not (isinstance(it, SObj) and isinstance(it.cls, ExtClass) and "__anext__" in it.cls.methods):
+        raise Unsupported("async for over something that is not an assumed async generator")
+    if spec is None:
+        raise Unsupported(f"async for loop #{k} of {qn} has no loop contract")
+    b0 = _inv_bindings(I, ctl, env, {"fx": list(c.fx)})
+    for cid, lam in spec.at_entry:
+        f = eval_clause(I, lam, _select(lam, b0), old_view=ctl.old_view())
+        c.check_obligation(f"{qn}::loop{k}.at_entry.{cid}", f)
+    _check_invs(I, ctl, spec, k, env, {}, "entry")
+    _havoc(I, ctl, node, env, spec, k)
+    _assume_invs(I, ctl, spec, env, {})
+    head_view = snapshot([v for v in ctl.bindings.values()])
+    mark = len(c.fx)
+    try:
+        aw = it.cls.methods["__anext__"].apply(I, it, [], {})
+        item = I.await_handler(I, aw, node)
+    except PyRaise as pr:
+        from .interp import exc_class
+
+        if issubclass(exc_class(pr.exc), StopAsyncIteration):
+            I.exec_block(node.orelse, env)
+            return None
+        raise
+    I.assign_target(node.target, item, env)
+    broke = False
+    try:
+        I.exec_block(node.body, env)
+    except BreakSig:
+        broke = True
+    except ContinueSig:
+        pass
+    b = _inv_bindings(I, ctl, env, {"fx": list(c.fx[mark:]), "broke": broke, "item": item})
+    for cid, lam in spec.each:
+        f = eval_clause(I, lam, _select(lam, b), old_view=head_view)
+        c.check_obligation(f"{qn}::loop{k}.each.{cid}", f)
+    c.check_obligation(f"{qn}::__canary__", False)
+    if broke:
+        return None
+    _check_invs(I, ctl, spec, k, env, {}, "preserved")
+    raise PathEnd()
 
 
 def install(I, con, node, bindings):
@@ -323,6 +427,18 @@ def _havoc(I, ctl, node, env, spec, k):
             else:
                 fields |= {p.split(".", 1)[1] for p in con.modifies_ if p.startswith("self.")}
     declared = spec.ghost.get("types", {}) if spec.ghost else {}
+    for path in sorted(deep_paths_in(node.body + getattr(node, "orelse", []))):
+        ty = declared.get(path)
+        if ty is None:
+            raise Unsupported(f"loop #{k} changes {path}: its type must be declared in the loop contract (ghost types)")
+        parts = path.split(".")
+        try:
+            obj = ctl.bindings["self"] if parts[0] == "self" and "self" in ctl.bindings else env.lookup(parts[0])
+        except KeyError:
+            raise Unsupported(f"loop #{k} changes {path}: unknown root")
+        for a in parts[1:-1]:
+            obj = I.getattr(obj, a)
+        I.setattr(obj, parts[-1], ty.fresh(I, f"{path}@loop{k}"))
     for n in sorted(names):
         if n in declared:
             env.assign(n, declared[n].fresh(I, f"{n}@loop{k}"))
@@ -441,6 +557,12 @@ def invariant_for(I, ctl, node, env, it, k, spec):
             raise Unsupported("symbolic range with step")
         lo, hi = int_term(it.start), int_term(it.stop)
         ghosts0 = {"_i": SInt(lo)}
+        if spec.at_entry:
+            # facts about the state when the loop is reached, and about the range it is going to walk
+            b0 = _inv_bindings(I, ctl, env, {"_lo": SInt(lo), "_hi": SInt(hi), "fx": list(c.fx)})
+            for cid, lam in spec.at_entry:
+                f = eval_clause(I, lam, _select(lam, b0), old_view=ctl.old_view())
+                c.check_obligation(f"{ctl.con.qualname}::loop{k}.at_entry.{cid}", f)
         _check_invs(I, ctl, spec, k, env, ghosts0, "entry")
         _havoc(I, ctl, node, env, spec, k)
         i = c.fresh_int(f"i@loop{k}")
